@@ -73,6 +73,7 @@ class ConvSim(WorldBase):
         self.ndump = 0
         self.nrand = 0
         self.dump_events = {}
+        self.dumped = {}
         self.cur_index = 0
 
     def V(self, prop, oracle, culprit, detail):
@@ -159,6 +160,8 @@ class ConvSim(WorldBase):
                     # the same path is loaded, rewritten and loaded again within one process
                     evs.append(["load", {"obj": key + "x", "path": path}])
             evs.append(["dump", {"obj": key, "path": path, "count": True}])
+            if g.random() < 0.4:
+                evs.append(["touch", {"obj": key}])
             evs.append(["load", {"obj": key, "path": path}])
         return evs
 
@@ -394,7 +397,46 @@ class ConvSim(WorldBase):
         self.ndump += 1
         if a.get("count"):
             self.dump_events[a["obj"]] = fs.n
+        # what the file must give back: the object as it was when it was dumped
+        if kind == "tensor":
+            self.dumped[a["path"]] = {"content": ob.content(ob.root_of(o), 0), "ids": list(o.getRankIds()),
+                                      "shape": o.getShape(), "name": o.getName()}
+        else:
+            self.dumped[a["path"]] = {"content": ob.content(o, 0)}
         return {"file_events": fs.n}
+
+    def ev_touch(self, a):
+        """the dumped object keeps living: it is updated in place after the dump (the file must not follow it)"""
+        if a["obj"] not in self.objs:
+            raise Skip("no object")
+        kind, o = self.objs[a["obj"]]
+        root = ob.root_of(o) if kind == "tensor" else o
+        if not isinstance(root, Fiber):
+            r = o.getPayloadRef()
+            r += 3
+            return {}
+        depth = len(o.ranks) if kind == "tensor" else None
+        f = root
+        pt = []
+        # insert a fresh coordinate at the first level and walk down creating the path
+        c = (max(f.coords) + 1) if f.coords else 0
+        if kind == "tensor":
+            pt = [c] + [0] * (depth - 1)
+            r = o.getPayloadRef(*pt)
+            r <<= 77
+        else:
+            d = 1
+            g = f
+            while g.payloads and isinstance(g.payloads[0], Fiber):
+                g = g.payloads[0]
+                d += 1
+            if d == 1:
+                r = f.getPayloadRef(c)
+                r <<= 77
+            else:
+                raise Skip("free multi-level fiber")
+        self.probe("object_updated_after_dump")
+        return {}
 
     def ev_load(self, a):
         if a["obj"] not in self.objs:
@@ -418,21 +460,23 @@ class ConvSim(WorldBase):
             self.V("C13", "C13.yaml-roundtrip", "load", f"loading the dump raised {type(e).__name__}: {str(e)[:80]}")
             return {"status": "exc"}
         self.fs.open_handles.clear()
+        snap = self.dumped.get(a["path"])
+        if snap is None:
+            raise Skip("nothing was dumped there")
         if kind == "tensor":
-            r1, r2 = ob.root_of(o), ob.root_of(t2)
-            c1, c2 = ob.content(r1, 0), ob.content(r2, 0)
+            c1, c2 = snap["content"], ob.content(ob.root_of(t2), 0)
             if c1 != c2:
                 self.V("C13", "C13.yaml-roundtrip", "load", f"content differs after dump/load: {len(c1)} vs {len(c2)} points")
-            if t2.getRankIds() != o.getRankIds():
-                self.V("C13", "C13.yaml-roundtrip", "load", f"rank ids {o.getRankIds()} came back as {t2.getRankIds()}")
-            if t2.getShape() != o.getShape():
-                self.V("C13", "C13.yaml-roundtrip", "load", f"shape {o.getShape()} came back as {t2.getShape()}")
-            if t2.getName() != o.getName():
-                self.V("C13", "C13.yaml-roundtrip-name", "load", f"name {o.getName()!r} came back as {t2.getName()!r}")
+            if t2.getRankIds() != snap["ids"]:
+                self.V("C13", "C13.yaml-roundtrip", "load", f"rank ids {snap['ids']} came back as {t2.getRankIds()}")
+            if t2.getShape() != snap["shape"]:
+                self.V("C13", "C13.yaml-roundtrip", "load", f"shape {snap['shape']} came back as {t2.getShape()}")
+            if t2.getName() != snap["name"]:
+                self.V("C13", "C13.yaml-roundtrip-name", "load", f"name {snap['name']!r} came back as {t2.getName()!r}")
             if not o.ranks:
                 self.probe("rank0_roundtrip")
         else:
-            c1, c2 = ob.content(o, 0), ob.content(f2, 0)
+            c1, c2 = snap["content"], ob.content(f2, 0)
             if c1 != c2:
                 self.V("C13", "C13.yaml-roundtrip", "load", f"fiber content differs after dump/load: {len(c1)} vs {len(c2)} points")
         self.probe("yaml_roundtrip_compared")
